@@ -1966,12 +1966,36 @@ def provenance(n, fn, inits, depth=0):
     return None
 
 
-def array_sources(fns, is_array):
-    """provenances of everything assigned to elements of an array (over several functions)"""
+def array_sources(fns, is_array, depth=0):
+    """provenances of everything assigned to elements of an array (over several functions); a whole-array copy
+    (std::copy / std::copy_n / memcpy from another member or local array) contributes the sources of that array"""
     out = []
+
+    def base(n):
+        while n is not None and (n.get("k") == "Cast" or (n.get("k") == "Un" and n.get("op") == "&") or (n.get("k") == "Index" and const_int(n.get("idx")) == 0)):
+            n = n["e"] if n.get("k") in ("Cast", "Un") else n["b"]
+        return n
     for fn in fns:
         inits = local_inits(fn)
         for n in fn.nodes():
+            if n.get("k") == "Call" and re.match(r"^(std::copy|std::copy_n|std::memcpy|memcpy)$", n.get("callee", "").split("<")[0]) and len(n.get("a", [])) == 3 and depth < 3:
+                cal = n["callee"].split("<")[0]
+                dst, src = (n["a"][0], n["a"][1]) if cal.endswith("memcpy") else (n["a"][2], n["a"][0])
+                dst, src = base(resolve_alias(dst, inits)), base(resolve_alias(src, inits))
+                if dst is not None and is_array(dst) and src is not None and src.get("k") in ("Member", "Ref"):
+                    if src.get("k") == "Member" and src.get("b", {}).get("k") == "This":
+                        same = lambda b, nm=src["n"]: b.get("k") == "Member" and b.get("n") == nm and b.get("b", {}).get("k") == "This"
+                    elif src.get("k") == "Ref":
+                        if src.get("dk") == "param":
+                            out.append(((("param", src["n"]), ()), n.get("l")))
+                            continue
+                        same = lambda b, d=src["d"]: b.get("k") == "Ref" and b.get("d") == d
+                    else:
+                        out.append((None, n.get("l")))
+                        continue
+                    sub = array_sources(fns, same, depth + 1)
+                    out.extend(sub if sub else [(None, n.get("l"))])
+                continue
             if n.get("k") != "Assign":
                 continue
             targets = []
@@ -2982,12 +3006,14 @@ def check_boundary_select(ck, facts):
     for f in sorted(fns, key=lambda f: f.full):
         key = "%s::%s" % (short(f.cls), f.name)
         try:
-            sel, val, info = norm_c10.facet_selection(f)
+            sel, val, info = norm_c10.facet_selection(f, facts)
         except norm_c10.NotPointwise as e:
             ck.incomplete(R, "%s: %s" % (key, e))
             continue
         masked = any(m for (_, m) in sel)
         bad = []
+        if info.get("count_problem"):
+            bad.append("the counters do not hold the number of adjacent cells: %s - not every (cell, local facet) incidence is counted" % info["count_problem"])
         for (c, m), s_ in sorted(sel.items()):
             want = (c == 1 and m == 0)
             if s_ != want:
